@@ -79,8 +79,8 @@ theorem stageA {c : Cfg} {s : Secrets} (h : ExchangeHyps c s) :
     ∃ req1 r1, marshalSend c.R (vReqPQ (fromBE c.d.nonce)) = .ok req1 ∧
       srvResPQ c.R c.P c.key s req1 = some (fromBE c.d.nonce, r1) ∧
       marshal c.R (vResPQ (fromBE c.d.nonce) s.serverNonce (bigBytes (s.p * s.q))
-        (s.extraFps ++ [specFingerprint c.P.H c.key])) = .ok r1 ∧
-      (s.extraFps ++ [specFingerprint c.P.H c.key]).length ≤ r1.length := by
+        (s.offered (specFingerprint c.P.H c.key))) = .ok r1 ∧
+      (s.offered (specFingerprint c.P.H c.key)).length ≤ r1.length := by
   obtain ⟨req1, hreq1⟩ := marshal_reqPQ h.reg _ (hyp_nonce h)
   have hpq : (bigBytes (s.p * s.q)).length < 2 ^ 24 := by
     have hlt : s.p * s.q < 256 ^ 8 := by
@@ -90,7 +90,7 @@ theorem stageA {c : Cfg} {s : Secrets} (h : ExchangeHyps c s) :
       omega
     have := bigBytes_length_le _ 8 hlt; omega
   obtain ⟨r1, hr1, hlen⟩ := marshal_resPQ h.reg (fromBE c.d.nonce) s.serverNonce (bigBytes (s.p * s.q))
-    (s.extraFps ++ [specFingerprint c.P.H c.key]) (hyp_nonce h) (hyp_sn h) hpq
+    (s.offered (specFingerprint c.P.H c.key)) (hyp_nonce h) (hyp_sn h) hpq
   refine ⟨req1, r1, by simp [marshalSend, hreq1], ?_, hr1, hlen⟩
   obtain ⟨v', hdec, her⟩ := decode_marshal c.R c.P.gunzip h.wfr _ req1 (wt_reqPQ h.reg _ (hyp_nonce h)) hreq1
     (by simp [vReqPQ, need, needL, fuelFor])
@@ -116,8 +116,8 @@ theorem pq_len {s : Secrets} (hp : s.p < 2 ^ 32) (hq : s.q < 2 ^ 32) :
 `p_q_inner_data` is built and RSA-encrypted, `req_DH_params` goes out. -/
 theorem stageB_client {c : Cfg} {s : Secrets} (h : ExchangeHyps c s) {r1 : Bytes}
     (hr1 : marshal c.R (vResPQ (fromBE c.d.nonce) s.serverNonce (bigBytes (s.p * s.q))
-        (s.extraFps ++ [specFingerprint c.P.H c.key])) = .ok r1)
-    (hlen : (s.extraFps ++ [specFingerprint c.P.H c.key]).length ≤ r1.length) :
+        (s.offered (specFingerprint c.P.H c.key))) = .ok r1)
+    (hlen : (s.offered (specFingerprint c.P.H c.key)).length ≤ r1.length) :
     ∃ m req2, marshal c.R (vPQInner (bigBytes (s.p * s.q)) (bigBytes s.p) (bigBytes s.q) (fromBE c.d.nonce)
           s.serverNonce (fromBE c.d.newNonce)) = .ok m ∧ m.length ≤ 105 ∧
       marshal c.R (vReqDH (fromBE c.d.nonce) s.serverNonce (bigBytes s.p) (bigBytes s.q) (specFingerprint c.P.H c.key)
@@ -128,11 +128,14 @@ theorem stageB_client {c : Cfg} {s : Secrets} (h : ExchangeHyps c s) {r1 : Bytes
   -- the client decodes resPQ
   obtain ⟨v', hdec, her⟩ := decode_marshal c.R c.P.gunzip h.wfr _ r1
     (wt_resPQ h.reg _ _ _ _ (hyp_nonce h) (hyp_sn h)
-      (by intro f hf; rcases List.mem_append.mp hf with hf | hf
-          · exact h.fps f hf
-          · simp at hf; rw [hf]; exact hfpl)
-      (by simpa using h.fpsLen)) hr1
-    (by have := need_resPQ (fromBE c.d.nonce) s.serverNonce (bigBytes (s.p * s.q)) (s.extraFps ++ [specFingerprint c.P.H c.key])
+      (by intro f hf
+          simp only [Secrets.offered, List.mem_append, List.mem_cons] at hf
+          rcases hf with hf | hf | hf
+          · exact h.fps f (List.mem_append.mpr (Or.inl hf))
+          · rw [hf]; exact hfpl
+          · exact h.fps f (List.mem_append.mpr (Or.inr hf)))
+      (by have := h.fpsLen; simp only [Secrets.offered, List.length_append, List.length_cons]; omega)) hr1
+    (by have := need_resPQ (fromBE c.d.nonce) s.serverNonce (bigBytes (s.p * s.q)) (s.offered (specFingerprint c.P.H c.key))
         unfold fuelFor; omega)
   obtain ⟨b1, b2, rfl⟩ := shape_resPQ her
   have hrecv := recvService_of_decode hdec (by simp [objId, idResPQ, idRpcError])
@@ -154,11 +157,11 @@ theorem stageB_client {c : Cfg} {s : Secrets} (h : ExchangeHyps c s) {r1 : Bytes
   refine ⟨m, req2, hm, hm105, by rw [henc']; exact hreq2, ?_⟩
   have hfp := fingerprint_eq_spec c.P.H c.key h.keyHi h.keyE
   have hview : asResPQ (Val.obj idResPQ [Val.big 16 (fromBE c.d.nonce), Val.big 16 s.serverNonce,
-      Val.bytes b1 (bigBytes (s.p * s.q)), Val.vec b2 (List.map Val.long (s.extraFps ++ [specFingerprint c.P.H c.key]))])
-      = some ⟨fromBE c.d.nonce, s.serverNonce, bigBytes (s.p * s.q), s.extraFps ++ [specFingerprint c.P.H c.key]⟩ := by
+      Val.bytes b1 (bigBytes (s.p * s.q)), Val.vec b2 (List.map Val.long (s.offered (specFingerprint c.P.H c.key)))])
+      = some ⟨fromBE c.d.nonce, s.serverNonce, bigBytes (s.p * s.q), s.offered (specFingerprint c.P.H c.key)⟩ := by
     simp only [asResPQ, longsOf_longs, if_true]
-  have hcont : (s.extraFps ++ [specFingerprint c.P.H c.key]).contains (rsaFingerprint c.P.H c.key) = true := by
-    rw [hfp]; simp
+  have hcont : (s.offered (specFingerprint c.P.H c.key)).contains (rsaFingerprint c.P.H c.key) = true := by
+    rw [hfp]; simp [Secrets.offered]
   have hmc : marshalCheck c.R (vPQInner (bigBytes (s.p * s.q)) (bigBytes s.p) (bigBytes s.q) (fromBE c.d.nonce)
       s.serverNonce (fromBE c.d.newNonce)) = .ok m := by simp [marshalCheck, hm]
   have hms : marshalSend c.R (vReqDH (fromBE c.d.nonce) s.serverNonce (bigBytes s.p) (bigBytes s.q)
